@@ -335,6 +335,18 @@ pub fn requests(prop: &str, fl: &str, g: &GraphSpec, thorough: bool, rng: Option
                 }
             }
         }
+        // the graph changes between two calls on the same builder (these come last: they alter the case's graph)
+        for d in dirs(fl, true) {
+            for &(r, t) in pairs.iter().take(if small { usize::MAX } else { 6 }) {
+                for k in &search_kinds {
+                    h += 1;
+                    let t2 = (t + 1 + h % n.max(1)) % n.max(1);
+                    let (a, b) = if d == "tr" { (t, r) } else { (r, t) };
+                    let pats = [format!("path+c.{a}.{b}.1+path"), format!("path+d.{a}.{b}+path"), format!("path+x.{t2}+path+cycle"), format!("path+c.{t2}.{b}.0+node")];
+                    l.push(format!("search {k} {d} {r} {t} none {}", pats[h % pats.len()]));
+                }
+            }
+        }
     }
     l
 }
